@@ -96,6 +96,8 @@ func modelOfMessage(msg *protogen.Message) *model {
 			if strings.HasPrefix(e.c, "_") {
 				e.infix, e.c = "_", e.c[1:]
 			}
+		} else {
+			e.c = refGoCamel(e.name) // open API message: the new-scheme name is not used
 		}
 		m.ents = append(m.ents, e)
 	}
